@@ -53,7 +53,7 @@ func c10IDSets(r *Rng, thorough bool) [][]sharing.ID {
 	}
 	extra := 4
 	if thorough {
-		extra = 40
+		extra = 120
 	}
 	for i := 0; i < extra; i++ {
 		sets = append(sets, rnd(2+(i+3)%5))
@@ -278,7 +278,7 @@ func c10Faults(c *Ctx, r *Rng, s *c10Session, desc string, stream uint64) {
 	modes := []string{"flip", "random", "zero", "swap", "drop"}
 	reps := 1
 	if c.Thorough() {
-		reps = 3
+		reps = 4
 	}
 	for _, f := range c10Fields {
 		for _, mode := range modes {
@@ -325,6 +325,50 @@ func c10Faults(c *Ctx, r *Rng, s *c10Session, desc string, stream uint64) {
 			}
 		}
 	}
+	// the commitment key: the commitments of later rounds depend on it, so the line carries the
+	// messages of the faulty run itself; the model decides (with the BLAKE2b model) who fails to open.
+	for _, mode := range []string{"flip", "random", "zero"} {
+		from := s.sorted[r.IntN(n)]
+		to := from
+		for to == from {
+			to = s.sorted[r.IntN(n)]
+		}
+		t := c10Tamper{Kind: c10R1B, Field: "ck", From: from, To: to}
+		if r.IntN(2) == 0 {
+			t.To = 0
+		}
+		switch mode {
+		case "flip":
+			t.Value = *s.r1b[from].Ck
+			t.Value[r.IntN(32)] ^= 1 << uint(r.IntN(8))
+		case "random":
+			_, _ = r.Read(t.Value[:])
+		}
+		c10OneFault(c, s, desc, stream, []c10Tamper{t})
+	}
+	// thorough: every (sender, recipient) pair for every field of small quorums
+	if c.Thorough() && n <= 4 {
+		for _, f := range c10Fields {
+			for _, from := range s.sorted {
+				for _, to := range s.sorted {
+					if to == from {
+						continue
+					}
+					for _, mode := range []string{"flip", "zero", "drop"} {
+						t := c10Tamper{Kind: f.kind, Field: f.field, From: from, To: to}
+						switch mode {
+						case "flip":
+							t.Value = s.c10FieldValue(f, from, to)
+							t.Value[r.IntN(32)] ^= 1 << uint(r.IntN(8))
+						case "drop":
+							t.Field = "drop"
+						}
+						c10OneFault(c, s, desc, stream, []c10Tamper{t})
+					}
+				}
+			}
+		}
+	}
 	// control: copying another party's commitment AND its opening is consistent, hence accepted
 	if n >= 3 {
 		a, b := s.sorted[0], s.sorted[n-1]
@@ -367,11 +411,22 @@ func c10OneFault(c *Ctx, s *c10Session, desc string, stream uint64, ts []c10Tamp
 	}
 	c.Count(key)
 	// no message of this protocol depends on a received commitment/opening/contribution
+	ckFault := false
+	for _, t := range ts {
+		ckFault = ckFault || t.Field == "ck"
+	}
+	out := t2.c10Outcomes()
+	if ckFault {
+		if strings.Contains(out, "panic:") {
+			c.Violation("panic under fault " + strings.Join(tdesc, ",") + " ids=" + c10IDs(s.ids, ",") + " outcome=" + out)
+		}
+		c.Emit("fault "+t2.c10Desc()+" "+strings.Join(tdesc, ","), out)
+		return
+	}
 	// (a run that stopped early has sent fewer messages; those it did send must be the same)
 	if !c10DescSubset(t2.c10Desc(), desc) {
 		c.Violation("harness: messages of the faulty run differ from the honest run: " + strings.Join(tdesc, ","))
 	}
-	out := t2.c10Outcomes()
 	// implementation-side oracle for single faults: every targeted recipient rejects and blames
 	// exactly the sender; nobody else is affected; no panic.
 	if strings.Contains(out, "panic:") {
